@@ -108,6 +108,27 @@ fn full_check(run: &Run, a: &Dec, b: &Dec, t: &mut Tally) {
 }
 
 fn replay(case: &Value) -> Vec<Violation> {
+    if let Some(views) = case.get("views").and_then(|v| v.as_array()) {
+        // two views of ONE object
+        let x = jd(&case["object"]);
+        let xb = bd(&x);
+        let r = xb.to_ref();
+        let view = |name: &str| match name {
+            "r" => r,
+            "-r" => -r,
+            "r.abs()" => r.abs(),
+            _ => -(-r),
+        };
+        let (va, vb) = (view(views[0].as_str().unwrap()), view(views[1].as_str().unwrap()));
+        let (da, db) = (jd(&case["a"]), jd(&case["b"]));
+        let want = cmp_val(&da.n, da.s, &db.n, db.s);
+        let exp = (want, want == Ordering::Equal, Some(want), want == Ordering::Less);
+        return match guard(|| (va.cmp(&vb), va == vb, va.partial_cmp(&vb), va < vb)) {
+            Ok(o) if o == exp => vec![],
+            Ok(o) => vec![Violation::new("views of one object", "wrong_value", case.clone(), format!("{:?}", exp), format!("{:?}", o))],
+            Err(e) => vec![Violation::new("views of one object", "panic", case.clone(), "no panic", e)],
+        };
+    }
     let (a, b) = (jd(&case["a"]), jd(&case["b"]));
     let want = cmp_val(&a.n, a.s, &b.n, b.s);
     diagnose(&bd(&a), &bd(&b), &a, &b, want)
@@ -419,9 +440,9 @@ fn main() {
     });
     // ---- S9: near-equal pairs: a value-equal pair with ONE word or ONE decimal digit of the longer coefficient
     // changed, at every word index (to two words above the top) and every digit position
-    let mut nb: Vec<BigInt> = [1i64, 5, 7, 12, 99, 1000].iter().map(|v| BigInt::from(*v)).collect();
+    let mut nb: Vec<BigInt> = (1i64..=12).chain([52, 99, 1000]).map(BigInt::from).collect();
     nb.extend([(BigInt::one() << 32usize) + 1, (BigInt::one() << 64usize) - 1, (BigInt::one() << 64usize) + 10, pow10(19) + 7, big(&filler_digits(run.seed(), 40, 40))]);
-    let ne = near_equal_pairs(tier.pick(24, 60), &nb);
+    let ne = near_equal_pairs(tier.pick(40, 60), &nb);
     run.bound("S9_near_equal_pairs", ne.len());
     run.par("S9 near-equal pairs (one word / one digit changed)", (ne.len() + 255) / 256, |blk| {
         let mut t = Tally::default();
@@ -453,8 +474,8 @@ fn main() {
                     let exp = (want, want == Ordering::Equal, Some(want), want == Ordering::Less);
                     match got {
                         Ok(o) if o == exp => {}
-                        Ok(o) => run.report(Violation::new("views of one object", "wrong_value", json!({"a": da.show(), "b": db.show(), "views": format!("{} vs {} of {}", na, nb, x.show())}), format!("{:?}", exp), format!("{:?}", o))),
-                        Err(e) => run.report(Violation::new("views of one object", "panic", json!({"a": da.show(), "b": db.show(), "views": format!("{} vs {} of {}", na, nb, x.show())}), "no panic", e)),
+                        Ok(o) => run.report(Violation::new("views of one object", "wrong_value", json!({"a": da.show(), "b": db.show(), "views": [na, nb], "object": x.show()}), format!("{:?}", exp), format!("{:?}", o))),
+                        Err(e) => run.report(Violation::new("views of one object", "panic", json!({"a": da.show(), "b": db.show(), "views": [na, nb], "object": x.show()}), "no panic", e)),
                     }
                 }
             }
